@@ -241,6 +241,11 @@ def drive(sc):
                 up = [int(edit_distance(ss, tt, b)) for b in range(BANDS)]
                 evs.append({"ev": "Edit", "s": s, "t": t, "unb": unb, "banded": down, "kind": kind, "order": "bands-descending-first"})
                 evs.append({"ev": "Edit", "s": s, "t": t, "unb": int(edit_distance(ss, tt)), "banded": up, "kind": kind, "order": "repeated"})
+            if kind == "str" and n % 4 == 0:
+                # the two arguments may be given in different types (str / bytes): same content, same distances
+                s1, t1 = (ss, tt.encode()) if n % 8 == 0 else (ss.encode(), tt)
+                evs.append({"ev": "Edit", "s": s, "t": t, "unb": int(edit_distance(s1, t1)),
+                            "banded": [int(edit_distance(s1, t1, b)) for b in range(BANDS)], "kind": "mixed", "order": "mixed-types"})
     return evs
 
 
